@@ -74,9 +74,20 @@ fn main() {
         });
         let j = json::parse(&text).unwrap_or(J::Null);
         props::replay(&prop, &mut ctx, &j);
-    } else if !props::run(&prop, &mut ctx) {
-        eprintln!("unknown property {}", prop);
-        std::process::exit(2);
+    } else {
+        // a panic of the harness's own code while it digests the implementation's answers is reported, not swallowed
+        let known = std::panic::catch_unwind(std::panic::AssertUnwindSafe(|| props::run(&prop, &mut ctx)));
+        match known {
+            Ok(true) => {}
+            Ok(false) => {
+                eprintln!("unknown property {}", prop);
+                std::process::exit(2);
+            }
+            Err(_) => {
+                let loc = util::LAST_PANIC_LOC.with(|l| l.borrow().clone());
+                ctx.rep.violation("oracle", "harness-crash", &format!("the harness itself panicked at {} while processing the implementation's output (unexpected output shape)", loc), J::obj().set("kind", J::s("harness-crash")).set("at", J::s(&loc)));
+            }
+        }
     }
     let mut j = ctx.rep.to_json();
     j.put("harness_wall_s", J::Num(t0.elapsed().as_secs_f64()));
